@@ -1,6 +1,296 @@
 import XvcRepo.Effects
+import XvcRepo.Props.C03
+/-!
+  # C07 — A killed xvc command never corrupts the repository or loses data
+
+  All statements quantify over **every prefix** of the micro-step list of a procedure, i.e. over every
+  instant at which the process can be killed between two system calls.
+-/
 namespace Repo
-theorem C07_placeholder : True := trivial
+
+theorem runMicro_append (s : St) (l1 l2 : List Micro) : runMicro s (l1 ++ l2) = runMicro (runMicro s l1) l2 := by
+  simp [runMicro, List.foldl_append]
+
+/-- **C07_full_fold_is_step**: executing all micro-steps of `carry_in` is the atomic step of the
+    repository model (so the crash model and the command model are one). -/
+theorem C07_full_fold_is_step (s : St) (p : Path) (a : Addr) (m : Method)
+    (hok : (if (s.cache a).isSome then (s, Out.ok) else s.moveToCache p a).2 = .ok) :
+    runMicro s (carryMicro p a m) = (s.carryOne p a m false).1 := by
+  unfold carryMicro runMicro St.carryOne mMoveIn mUnlinkWs mMaterialise
+  simp only [List.foldl_cons, List.foldl_nil, Bool.false_eq_true, if_false]
+  split
+  · rfl
+  · rename_i hn
+    simp only [hn, Bool.false_eq_true, if_false] at hok
+    generalize s.moveToCache p a = res at hok ⊢
+    obtain ⟨s1, o1⟩ := res
+    simp only at hok
+    subst hok
+    rfl
+
+theorem mMoveIn_from (s : St) (p : Path) (a : Addr) (h : ∀ b w st l, s.ws p = some (.file b w st l) → HashOf a.d b) :
+    CacheFrom s (mMoveIn p a s) := by
+  unfold mMoveIn; split
+  · exact CacheFrom.refl s
+  · exact moveToCache_from s p a h
+
+theorem mMoveIn_keep (s : St) (p : Path) (a : Addr) : CacheKeep s (mMoveIn p a s) := by
+  unfold mMoveIn; split
+  · exact CacheKeep.refl s
+  · rename_i hn
+    apply moveToCache_keep
+    cases hc : s.cache a with
+    | none => rfl
+    | some o => simp [hc] at hn
+
+theorem mUnlinkWs_cache (s : St) (p : Path) : (mUnlinkWs p s).cache = s.cache := by
+  unfold mUnlinkWs; split <;> rfl
+
+theorem mMaterialise_cache (s : St) (p : Path) (a : Addr) (m : Method) : (mMaterialise p a m s).cache = s.cache :=
+  recheckFromCache_cache s p a m
+
+/-- the cache along the micro-steps of `carry_in` -/
+theorem carryMicro_prefix_cache (s : St) (p : Path) (a : Addr) (m : Method) (k : Nat) :
+    (runMicro s ((carryMicro p a m).take k)).cache = s.cache ∨
+    (runMicro s ((carryMicro p a m).take k)).cache = (mMoveIn p a s).cache := by
+  unfold carryMicro runMicro
+  match k with
+  | 0 => left; rfl
+  | 1 => right; rfl
+  | 2 => right; simp [mUnlinkWs_cache]
+  | k + 3 =>
+    right
+    rw [List.take_of_length_le (by simp)]
+    simp [mUnlinkWs_cache, mMaterialise_cache]
+
+/-- **C07_no_partial_object**: at **every** kill point of `carry_in` every object in the cache is an old
+    object or a complete, correctly addressed one — objects arrive by `rename`, never by writing at the
+    final address. -/
+theorem C07_no_partial_object (s : St) (p : Path) (a : Addr) (m : Method) (k : Nat)
+    (h : ∀ b w st l, s.ws p = some (.file b w st l) → HashOf a.d b) :
+    CacheFrom s (runMicro s ((carryMicro p a m).take k)) := by
+  rcases carryMicro_prefix_cache s p a m k with hc | hc
+  · exact cacheFrom_of_eq hc
+  · intro a' o ho; rw [hc] at ho; exact mMoveIn_from s p a h a' o ho
+
+/-- **C07_old_versions_survive**: at every kill point of `carry_in` (without `--force`) every object that
+    was in the cache — every version committed before — is still there, bit for bit. -/
+theorem C07_old_versions_survive (s : St) (p : Path) (a : Addr) (m : Method) (k : Nat) :
+    CacheKeep s (runMicro s ((carryMicro p a m).take k)) := by
+  rcases carryMicro_prefix_cache s p a m k with hc | hc
+  · exact cacheKeep_of_eq hc
+  · intro a' o ho; rw [hc]; exact mMoveIn_keep s p a a' o ho
+
+/-- **C07_bytes_survive**: at every kill point of `carry_in` of a regular file with bytes `b`, the bytes
+    are still at the path or already in the cache at the address (barring a colliding object, K1). -/
+theorem C07_bytes_survive (s : St) (p : Path) (a : Addr) (m : Method) (k : Nat) (b : Bytes) (w : Bool) (st : Nat)
+    (l : Option Addr) (hw : s.ws p = some (.file b w st l)) (hnc : NoCollision s a b) :
+    (∃ n, (runMicro s ((carryMicro p a m).take k)).readThrough p = some (b, n)) ∨
+    (∃ o, (runMicro s ((carryMicro p a m).take k)).cache a = some o ∧ o.b = b) := by
+  have hmoved : ∃ o, (mMoveIn p a s).cache a = some o ∧ o.b = b := by
+    unfold mMoveIn
+    cases hc : s.cache a with
+    | some o => exact ⟨o, by simp [hc], hnc o hc⟩
+    | none =>
+      simp only [Option.isSome_none, Bool.false_eq_true, if_false]
+      unfold St.moveToCache
+      simp [hw]
+  match k with
+  | 0 => left; exact ⟨st, by simp [runMicro, St.readThrough, hw]⟩
+  | k + 1 =>
+    right
+    rcases carryMicro_prefix_cache s p a m (k + 1) with hc | hc
+    · -- cache unchanged ⇒ the `[EXISTS]` case: the object was already there
+      have h1 : (mMoveIn p a s).cache = s.cache ∨ True := Or.inr trivial
+      obtain ⟨o, ho, hb⟩ := hmoved
+      cases hs : s.cache a with
+      | some o' => exact ⟨o', by rw [hc]; exact hs, hnc o' hs⟩
+      | none =>
+        -- then the prefix of length ≥ 1 has the moved cache, which differs at `a`: contradiction with `hc`
+        exfalso
+        have : (runMicro s ((carryMicro p a m).take (k + 1))).cache = (mMoveIn p a s).cache := by
+          unfold carryMicro runMicro
+          match k with
+          | 0 => rfl
+          | 1 => simp [mUnlinkWs_cache]
+          | k + 2 =>
+            rw [List.take_of_length_le (by simp)]
+            simp [mUnlinkWs_cache, mMaterialise_cache]
+        rw [this] at hc
+        rw [hc, hs] at ho; cases ho
+    · obtain ⟨o, ho, hb⟩ := hmoved
+      exact ⟨o, by rw [hc]; exact ho, hb⟩
+
+/-- **C07_store_file_atomic** (K3a repaired): at every kill point of a store save, every *visible* file
+    of the directory is complete — a reader never sees an empty or partial event log. -/
+theorem C07_store_file_atomic (d : List DirEntry) (n : Nat) (k : Nat) (hd : ∀ x ∈ visible d, x.complete = true)
+    (hfresh : ∀ x ∈ d, x.name ≠ n) :
+    ∀ x ∈ visible (((saveFileMicro n).take k).foldl (fun d f => f d) d), x.complete = true := by
+  have map_id : ∀ (g : DirEntry → DirEntry), d.map (fun x => if x.name = n ∧ x.hidden = true then g x else x) = d := by
+    intro g
+    conv => rhs; rw [← List.map_id d]
+    apply List.map_congr_left
+    intro x hx
+    have : ¬ (x.name = n ∧ x.hidden = true) := fun h => hfresh x hx h.1
+    simp [this]
+  -- the four possible prefix states
+  have h1 : ((saveFileMicro n).take 1).foldl (fun d f => f d) d = d ++ [⟨n, true, false⟩] := rfl
+  have h2 : ((saveFileMicro n).take 2).foldl (fun d f => f d) d = d ++ [⟨n, true, true⟩] := by
+    simp only [saveFileMicro, List.take, List.foldl_cons, List.foldl_nil, List.map_append, map_id]
+    simp
+  have h3 : (saveFileMicro n).foldl (fun d f => f d) d = d ++ [⟨n, false, true⟩] := by
+    simp only [saveFileMicro, List.foldl_cons, List.foldl_nil, List.map_append, List.map_map]
+    have : d.map ((fun x => if x.name = n ∧ x.hidden = true then ({ x with hidden := false } : DirEntry) else x) ∘
+        (fun x => if x.name = n ∧ x.hidden = true then ({ x with complete := true } : DirEntry) else x)) = d := by
+      conv => rhs; rw [← List.map_id d]
+      apply List.map_congr_left
+      intro x hx
+      have : ¬ (x.name = n ∧ x.hidden = true) := fun h => hfresh x hx h.1
+      simp [Function.comp, this]
+    rw [this]; simp
+  have vis_app : ∀ e : DirEntry, ∀ x ∈ visible (d ++ [e]), x ∈ visible d ∨ (x = e ∧ e.hidden = false) := by
+    intro e x hx
+    simp only [visible, List.filter_append, List.mem_append, List.mem_filter, List.mem_singleton] at hx ⊢
+    rcases hx with hx | ⟨rfl, hh⟩
+    · exact Or.inl hx
+    · exact Or.inr ⟨rfl, by simpa using hh⟩
+  match k with
+  | 0 => exact hd
+  | 1 =>
+    rw [h1]; intro x hx
+    rcases vis_app _ x hx with h | ⟨_, h⟩
+    · exact hd x h
+    · cases h
+  | 2 =>
+    rw [h2]; intro x hx
+    rcases vis_app _ x hx with h | ⟨_, h⟩
+    · exact hd x h
+    · cases h
+  | k + 3 =>
+    rw [List.take_of_length_le (by simp [saveFileMicro]), h3]; intro x hx
+    rcases vis_app _ x hx with h | ⟨rfl, _⟩
+    · exact hd x h
+    · rfl
+
+/-- K3b2: `track` killed after the records are saved and before the content is moved: re-running `track`
+    sees identical metadata and skips the file, which is recorded but not cached. -/
+theorem C07_track_rerun_counterexample :
+    let s0 := St.init.userWrite ⟨0, 1⟩ [104]
+    let r := newRec ⟨0, 1⟩ 1 (digestOf 0 .auto [104]) .copy .auto
+    let sk := runMicro s0 ((trackNewMicro ⟨0, 1⟩ r (addrOf ⟨0, 1⟩ (digestOf 0 .auto [104]))).take 1)
+    let s1 := (sk.trackOne {} {} ⟨0, 1⟩).1
+    (s1.cache (addrOf ⟨0, 1⟩ (digestOf 0 .auto [104]))).isNone = true ∧ (s1.findEnt ⟨0, 1⟩).isSome = true ∧
+    (s1.readThrough ⟨0, 1⟩).map (·.1) = some [104] := by
+  decide
+
+/-- K3d: `carry-in` killed after the `rename` into the cache and before the records are saved: the path is
+    missing, re-running `carry-in` panics, `recheck` restores the PREVIOUS version. -/
+theorem C07_carryIn_rerun_counterexample :
+    let s0 := ((St.init.userWrite ⟨0, 1⟩ [104]).track {} {} [⟨0, 1⟩]).1.userWrite ⟨0, 1⟩ [105]
+    let sk := runMicro s0 ((carryMicro ⟨0, 1⟩ (addrOf ⟨0, 1⟩ (digestOf 0 .auto [105])) .copy).take 1)
+    (sk.carryInOne {} none false ⟨0, 1⟩).2 = .panic ∧
+    ((sk.recheckOne {} none false ⟨0, 1⟩).1.readThrough ⟨0, 1⟩).map (·.1) = some [104] ∧
+    (sk.cache (addrOf ⟨0, 1⟩ (digestOf 0 .auto [105]))).isSome = true := by
+  decide
+
+/-- **C07_recheck_rerun_converges**: `recheck` killed at **any** point — file unlinked, or materialised with
+    the new method but the method not yet recorded — and run again ends with the entry of the requested
+    kind that yields the object's bytes. -/
+theorem C07_recheck_rerun_converges (c : Cfg) (s : St) (p : Path) (e : Ent) (r : Rec) (d : Digest) (o : Obj) (n : Nat)
+    (m : Method) (k : Nat) (hfind : s.findEnt p = some e) (hrec : s.recs e = some r) (hcur : r.cur = some d)
+    (hmd : r.md = .stamp n) (hobj : s.cache (addrOf p d) = some o)
+    (hclean : (s.ws p).isSome → (s.readThrough p).isSome) :
+    let sk := runMicro s ((recheckMicro p e { r with method := m } (addrOf p d)).take k)
+    (sk.recheckOne c (some m) true p).2 = .ok ∧
+    Materialised (sk.recheckOne c (some m) true p).1 p (addrOf p d) o m := by
+  -- every prefix state has: same cache, a record for `e` with the same digests/path/md, and a clean entry at `p`
+  have key : ∀ sk : St, sk.cache = s.cache → sk.next = s.next →
+      (∃ r', sk.recs = upd s.recs e (some r') ∧ r'.cur = some d ∧ r'.md = .stamp n ∧ r'.path = r.path) →
+      ((sk.ws p).isSome → (sk.readThrough p).isSome) →
+      (sk.recheckOne c (some m) true p).2 = .ok ∧ Materialised (sk.recheckOne c (some m) true p).1 p (addrOf p d) o m := by
+    intro sk hc hn ⟨r', hr', hcur', hmd', hpath'⟩ hcl
+    obtain ⟨r0, hr0, hp0⟩ := findEnt_path hfind
+    rw [hrec] at hr0; cases hr0
+    have hfind' : sk.findEnt p = some e := by
+      unfold St.findEnt at hfind ⊢
+      rw [hn, hr']
+      have hcongr : ∀ (f g : Ent → Bool) (l : List Ent), (∀ x, f x = g x) → l.find? f = l.find? g := by
+        intro f g l h; have : f = g := funext h; rw [this]
+      refine (hcongr _ _ _ ?_).trans hfind
+      intro x
+      by_cases hx : x = e
+      · subst hx; simp [hrec, hpath', hp0]
+      · rw [upd_other _ _ hx]
+    have hrec' : sk.recs e = some r' := by rw [hr']; simp
+    have hobj' : sk.cache (addrOf p d) = some o := by rw [hc]; exact hobj
+    have := C01_recheck_restores c sk p e r' d o n (some m) true hfind' hrec' hcur' hmd' hobj' (Or.inr ⟨rfl, hcl⟩)
+    refine ⟨this.1, ?_⟩
+    -- the materialised entry: re-derive through C17 on the state `recheckOne` builds
+    unfold St.recheckOne
+    simp only [hfind', hrec']
+    unfold St.recheckRec
+    have hact : sk.recheckActs c r' m true = true := by simp [St.recheckActs]
+    simp only [Option.getD_some, hact, hcur', Bool.not_true, Bool.false_eq_true, if_false, setRec_cache, hobj',
+      Option.isSome_some, if_true]
+    exact (C17_method_materialises (sk.setRec e (some { r' with method := m })) p (addrOf p d) o m
+      (by simpa using hobj') (by intro h; exact hcl h)).2.1
+  have hr_self : s.recs = upd s.recs e (some r) := by
+    funext x; by_cases hx : x = e
+    · subst hx; simp [hrec]
+    · rw [upd_other _ _ hx]
+  -- the three non-trivial prefix states
+  have hcu := mUnlinkWs_cache s p
+  have hnu : (mUnlinkWs p s).next = s.next := by unfold mUnlinkWs; split <;> rfl
+  have hru : (mUnlinkWs p s).recs = s.recs := by unfold mUnlinkWs; split <;> rfl
+  have hclu : ((mUnlinkWs p s).ws p).isSome → ((mUnlinkWs p s).readThrough p).isSome := by
+    unfold mUnlinkWs
+    split
+    · intro h; simp at h
+    · exact hclean
+  have hmat := C17_method_materialises (mUnlinkWs p s) p (addrOf p d) o m (by rw [hcu]; exact hobj) hclu
+  obtain ⟨kk, hk⟩ := hmat.2.2.1
+  have s1ok := key (mUnlinkWs p s) hcu hnu ⟨r, by rw [hru]; exact hr_self, hcur, hmd, rfl⟩ hclu
+  have s2ok := key (mMaterialise p (addrOf p d) m (mUnlinkWs p s))
+    (by rw [mMaterialise_cache, hcu]) (by unfold mMaterialise; rw [recheckFromCache_next, hnu])
+    ⟨r, by (unfold mMaterialise; rw [recheckFromCache_recs, hru]; exact hr_self), hcur, hmd, rfl⟩
+    (by intro _; unfold mMaterialise; rw [hk]; rfl)
+  have s3ok := key (mSaveRec e { r with method := m } (mMaterialise p (addrOf p d) m (mUnlinkWs p s)))
+    (by unfold mSaveRec; rw [setRec_cache, mMaterialise_cache, hcu])
+    (by unfold mSaveRec mMaterialise; rw [setRec_next, recheckFromCache_next, hnu])
+    ⟨{ r with method := m }, by (unfold mSaveRec mMaterialise; rw [setRec_recs, recheckFromCache_recs, hru]), hcur, hmd, rfl⟩
+    (by
+      intro _
+      unfold mSaveRec mMaterialise
+      have : ((St.recheckFromCache (mUnlinkWs p s) p (addrOf p d) m).1.setRec e
+          (some { r with method := m })).readThrough p = (St.recheckFromCache (mUnlinkWs p s) p (addrOf p d) m).1.readThrough p := rfl
+      rw [this, hk]; rfl)
+  unfold recheckMicro runMicro
+  match k with
+  | 0 => exact key s rfl rfl ⟨r, hr_self, hcur, hmd, rfl⟩ hclean
+  | 1 => exact s1ok
+  | 2 => exact s2ok
+  | k + 3 =>
+    rw [List.take_of_length_le (by simp)]
+    exact s3ok
+
+example : ∃ d : List DirEntry, (∀ x ∈ visible d, x.complete = true) ∧ (∀ x ∈ d, x.name ≠ 7) :=
+  ⟨[⟨3, false, true⟩, ⟨5, true, false⟩], by decide, by decide⟩
+
 end Repo
+
 open Repo in
-#print axioms C07_placeholder
+#print axioms C07_full_fold_is_step
+open Repo in
+#print axioms C07_no_partial_object
+open Repo in
+#print axioms C07_old_versions_survive
+open Repo in
+#print axioms C07_bytes_survive
+open Repo in
+#print axioms C07_store_file_atomic
+open Repo in
+#print axioms C07_track_rerun_counterexample
+open Repo in
+#print axioms C07_carryIn_rerun_counterexample
+open Repo in
+#print axioms C07_recheck_rerun_converges
